@@ -319,6 +319,15 @@ Theorem C10_rewritten_file_is_reparsed :
 Proof. exact rewritten_file_is_reparsed. Qed.
 Print Assumptions C10_rewritten_file_is_reparsed.
 
+(* one result object, read and exported any number of times in any order: every read gives the parsed result and
+   every export the csv of that result - the modelled as_csv is a pure function of the parsed result *)
+Theorem C10_csv_is_pure :
+  forall (Res C : Type) (csv : Res -> C) (r : Res) ops k,
+  nth_error (answers csv r ops) k
+  = option_map (fun o => match o with ReadResult => inl r | Export => inr (csv r) end) (nth_error ops k).
+Proof. exact csv_is_pure. Qed.
+Print Assumptions C10_csv_is_pure.
+
 (* ---- non-vacuity: concrete instances satisfying the hypotheses ---------------------------------------------- *)
 Example C10_ex_roundtrip :
   field_of_line "Well depth" false (render_scalar 6 "Well depth" 1 "-12,345,678.9" (Some "kilometer") NL)
@@ -427,4 +436,9 @@ Proof. vm_compute. reflexivity. Qed.
 Example C10_ex_history :   (* the revenue table of the model after a re-write is the table of the new text *)
   forall a b, run revenue_table [] [Write "P" a; Parse "P"; Parse "P"; Write "P" b; Parse "P"]
               = [Some (revenue_table a); Some (revenue_table a); Some (revenue_table b)].
+Proof. intros. reflexivity. Qed.
+
+Example C10_ex_csv_pure :
+  forall cats : list (string * catval string),
+  answers csv_all cats [ReadResult; Export; ReadResult; Export] = [inl cats; inr (csv_all cats); inl cats; inr (csv_all cats)].
 Proof. intros. reflexivity. Qed.
